@@ -22,6 +22,8 @@
 (*   (blank)                                                               *)
 (*   I              "- it [i](2)"              a list item with a link ... *)
 (*   J              "  more [j](2)"            ... and a second line       *)
+(*   K, K2          "- k [wra" "  pped](2)"    a second item that ends in a  *)
+(*                                             link wrapped over two lines   *)
 (*   (blank)                                                               *)
 (*   Q              "> [q](2)"                 a quote holding one reference *)
 (*   (blank)                                                               *)
@@ -56,7 +58,10 @@ LastLine(P) == ItemLine(P)
 \* the item has a second line (the same tight paragraph); after it a block quote that holds a single
 \* block reference, a table with a link in a cell, and a last paragraph of two lines
 JLineW(P, wrap) == ItemLineW(P, wrap) + 1
-QuoteLineW(P, wrap) == JLineW(P, wrap) + 2
+\* a second item whose link is wrapped over two lines (K: "- k [wra", K2: "  pped](2)")
+KLineW(P, wrap) == JLineW(P, wrap) + 1
+K2LineW(P, wrap) == JLineW(P, wrap) + 2
+QuoteLineW(P, wrap) == K2LineW(P, wrap) + 2
 \* a paragraph with a wiki link and a piped wiki link: "w [[2]] x [[2|s]] y"
 WikiLineW(P, wrap) == QuoteLineW(P, wrap) + 2
 TableLineW(P, wrap) == WikiLineW(P, wrap) + 2
